@@ -1662,7 +1662,14 @@ class Parallel(Logger):
         if self.dispatch_one_batch(iterator):
             self._iterating = self._original_iterator is not None
 
-        while self.dispatch_one_batch(iterator):
+        # Some tasks can complete while pre-dispatching: their callbacks then
+        # dispatch (and slice) further batches. In this case, leave the
+        # remaining items to the callbacks, so that no more than pre_dispatch
+        # tasks are pending at any time.
+        while (
+            pre_dispatch == "all"
+            or self.n_dispatched_tasks - self.n_completed_tasks < pre_dispatch
+        ) and self.dispatch_one_batch(iterator):
             pass
 
         if pre_dispatch == "all":
